@@ -5,7 +5,7 @@ REPO = os.environ.get('VERIF_REPO', '/repo')
 CACHE = os.path.join(V, '.cache')
 
 
-def run():
+def run(target='src/setup.rs', frag='setup_kat.rs', test_filter='rfc9180_a_1_1', n_tests=1):
     t0 = time.time()
     sc = tempfile.mkdtemp(prefix='hpke_kat_')
     try:
@@ -14,12 +14,12 @@ def run():
         for d in ('src', 'benches', 'examples'):
             if os.path.exists(os.path.join(REPO, d)):
                 shutil.copytree(os.path.join(REPO, d), os.path.join(sc, d))
-        p = os.path.join(sc, 'src', 'setup.rs')
-        open(p, 'a').write('\n' + open(os.path.join(V, 'kat', 'setup_kat.rs')).read())
+        p = os.path.join(sc, target)
+        open(p, 'a').write('\n' + open(os.path.join(V, 'kat', frag)).read())
         env = dict(os.environ, CARGO_NET_OFFLINE='true', CARGO_TARGET_DIR=os.path.join(CACHE, 'rustc-target'))
-        r = subprocess.run(['cargo', 'test', '--offline', '--lib', 'rfc9180_a_1_1'], cwd=sc, capture_output=True, text=True, env=env, timeout=900)
+        r = subprocess.run(['cargo', 'test', '--offline', '--lib', '--features', 'p384,p521', test_filter], cwd=sc, capture_output=True, text=True, env=env, timeout=900)
         out = r.stdout + r.stderr
-        ok = 'test result: ok. 1 passed' in out
+        ok = ('test result: ok. %d passed' % n_tests) in out
         failed = 'test result: FAILED' in out
         lines = [l for l in out.splitlines() if ('panicked' in l or 'left:' in l or 'right:' in l or l.startswith('test ') or 'error' in l[:8])]
         return {'ok': ok, 'failed_natively': failed, 'compiled': ok or failed, 'output': '\n'.join(lines[:14]).replace(sc, '<scratch>'),
@@ -28,5 +28,11 @@ def run():
         shutil.rmtree(sc, ignore_errors=True)
 
 
+def run_nist():
+    """SEC 2 base-point known answers for the three NIST curves (bounded stand-in for the trusted NIST write_exact / dh bodies)."""
+    return run('src/dhkex/ecdh_nistp.rs', 'nist_kat.rs', 'verif_nist_kat_p', 3)
+
+
 if __name__ == '__main__':
-    print(run())
+    import sys
+    print(run_nist() if 'nist' in sys.argv[1:] else run())
